@@ -310,7 +310,11 @@ func c07Units(thorough bool) []*explore.Unit {
 			}
 		}
 		if thorough && p.event != "" {
-			b = 2
+			b = 1
+			// the second deviation where the state space allows it to complete
+			if n := len(strings.Join(p.scripts, "")); len(p.keys) <= 2 && (n <= 2 || (n <= 3 && (p.event == "cancel" || p.event == "close"))) {
+				b = 2
+			}
 		}
 		units = append(units, &explore.Unit{Name: p.String(), Bound: b, Opt: vrt.Options{MaxSteps: 60000},
 			Body: batchBody(p, out), Check: c07Check(p, out), Sig: batchSig(out)})
